@@ -3,8 +3,9 @@
 //! by a lemma) that the model functions equal these tables on their whole domain - a tie that is exhaustive and checked by the
 //! kernel, not sampled.  One line per table: `<NAME> <row width> <rows concatenated>`; a panic inside a row prints `!`s.
 use bp7::canonical::{new_hop_count_block, CanonicalBlock, CanonicalData};
-use bp7::crc::CrcBlock;
-use bp7::flags::{BlockControlFlags, BlockValidation, BundleValidation};
+use bp7::flags::BlockControlFlags;
+use bp7::{Bundle, CreationTimestamp, EndpointID};
+use std::convert::TryFrom;
 use std::panic::catch_unwind;
 
 pub const BUNDLE_BITS: [u64; 14] = [0x1, 0x2, 0x4, 0x8, 0x10, 0x20, 0x40, 0x200, 0x2000, 0x4000, 0x8000, 0x10000, 0x20000, 0x40000];
@@ -26,45 +27,83 @@ fn bit(b: bool) -> char {
 pub fn main() {
     std::panic::set_hook(Box::new(|_| {}));
     println!("BUNDLEBITS {}", BUNDLE_BITS.iter().map(|b| b.to_string()).collect::<Vec<_>>().join(" "));
-    // BlockControlFlagsType::validate for every u8
-    let s: String = (0..=255u8).map(|w| row(1, move || bit(BlockValidation::validate(&w).is_ok()).to_string())).collect();
+    // Everything below is observed at the level the PROPERTIES speak about (Bundle::validate, Bundle::update_extensions, Bundle::set_crc +
+    // Bundle::to_cbor), not at the level of helper functions whose conventions a maintainer may change.
+    let base = || {
+        let mut p = bp7::primary::PrimaryBlock::new();
+        p.destination = EndpointID::try_from("dtn://d/").unwrap();
+        p.source = EndpointID::try_from("dtn://s/").unwrap();
+        p.report_to = EndpointID::none();
+        p.creation_timestamp = CreationTimestamp::with_time_and_seq(1000, 0);
+        p.lifetime = std::time::Duration::from_millis(3_600_000);
+        p
+    };
+    // Bundle::validate of an otherwise valid one-block bundle whose payload block carries the block control flags w, for every u8
+    let s: String = (0..=255u8)
+        .map(|w| {
+            row(1, move || {
+                let mut pb = bp7::canonical::new_payload_block(BlockControlFlags::empty(), vec![0x78]);
+                pb.block_control_flags = w;
+                bit(Bundle::new(base(), vec![pb]).validate().is_ok()).to_string()
+            })
+        })
+        .collect();
     println!("BLOCKFLAGS 1 {}", s);
-    // BundleControlFlagsType::validate for every combination of the nine defined flags and the bits of the reserved mask
+    // Bundle::validate of an otherwise valid bundle whose bundle control flags are each combination of the nine defined flags and the
+    // bits of the reserved mask
     let s: String = (0..(1u32 << BUNDLE_BITS.len()))
         .map(|i| {
             let w: u64 = BUNDLE_BITS.iter().enumerate().filter(|(j, _)| i & (1 << j) != 0).map(|(_, b)| *b).sum();
-            row(1, move || bit(BundleValidation::validate(&w).is_ok()).to_string())
+            row(1, move || {
+                let mut p = base();
+                p.bundle_control_flags = w;
+                let pb = bp7::canonical::new_payload_block(BlockControlFlags::empty(), vec![0x78]);
+                bit(Bundle::new(p, vec![pb]).validate().is_ok()).to_string()
+            })
         })
         .collect();
     println!("BUNDLEFLAGS 1 {}", s);
-    // hop count block with (limit, count): hop_count_increase, then hop_count_exceeded and the count read back
-    let mut s = String::with_capacity(65536 * 4);
+    // Bundle::update_extensions on a bundle with hop count block (limit, count), no age block, not expired: the returned bool, and - when
+    // true - the count afterwards; when false only "did the count go DOWN (wrap)?" (`ww`), which is all C08 says about that case
+    let mut s = String::with_capacity(65536 * 3);
     for l in 0..=255u8 {
         for k in 0..=255u8 {
-            s.push_str(&row(4, move || {
-                let mut c: CanonicalBlock = new_hop_count_block(2, BlockControlFlags::empty(), l);
-                c.set_data(CanonicalData::HopCount(l, k));
-                let inc = c.hop_count_increase();
-                let exc = c.hop_count_exceeded();
-                match c.hop_count_get() {
-                    Some((l2, k2)) if l2 == l => format!("{}{}{:02x}", bit(inc), bit(exc), k2),
-                    _ => "!!!!".into(),
+            s.push_str(&row(3, move || {
+                let mut hc: CanonicalBlock = new_hop_count_block(2, BlockControlFlags::empty(), l);
+                hc.set_data(CanonicalData::HopCount(l, k));
+                let pb = bp7::canonical::new_payload_block(BlockControlFlags::empty(), vec![0x78]);
+                let mut b = Bundle::new(base(), vec![hc, pb]);
+                bp7::verif_hooks::set_thread_clock_ms(Some(946_684_802_000));
+                let ret = b.update_extensions(EndpointID::try_from("dtn://h/").unwrap(), 0);
+                bp7::verif_hooks::set_thread_clock_ms(None);
+                let after = b.canonicals.iter().find_map(|c| match c.data() {
+                    CanonicalData::HopCount(_, k2) if c.block_type == 10 => Some(*k2),
+                    _ => None,
+                });
+                match (ret, after) {
+                    (true, Some(k2)) => format!("1{:02x}", k2),
+                    (false, Some(k2)) if k2 < k => "0ww".into(),
+                    (false, Some(_)) => "0--".into(),
+                    _ => "!!!".into(),
                 }
             }));
         }
     }
-    println!("HOP 4 {}", s);
-    // set_crc_type(k) for every u8: type code read back, has_crc, length of the CRC bytes
+    println!("HOP 3 {}", s);
+    // Bundle::set_crc(k) for every u8 on a hop count + payload bundle, then Bundle::to_cbor: the bytes, padded with '.'
     let s: String = (0..=255u8)
         .map(|k| {
-            row(4, move || {
-                let mut c = CanonicalBlock::new();
-                c.set_crc_type(k);
-                format!("{:02x}{}{}", c.crc_type(), bit(c.crc_value().has_crc()), c.crc_value().bytes().map(|b| b.len()).unwrap_or(0))
+            row(200, move || {
+                let hc = new_hop_count_block(2, BlockControlFlags::empty(), 32);
+                let pb = bp7::canonical::new_payload_block(BlockControlFlags::empty(), vec![0x78]);
+                let mut b = Bundle::new(base(), vec![hc, pb]);
+                b.set_crc(k);
+                let h = bp7::helpers::hexify(&b.to_cbor());
+                format!("{:.<200}", h)
             })
         })
         .collect();
-    println!("CRCCODE 4 {}", s);
+    println!("CRCCODE 200 {}", s);
     // hexify of every single byte
     let s: String = (0..=255u8).map(|b| row(2, move || bp7::helpers::hexify(&[b]))).collect();
     println!("HEXIFY 2 {}", s);
@@ -98,8 +137,6 @@ pub fn main() {
 /// length, lexicographically by option index o = 6*kind + 2*(number-1) + status (kind 0..4 in the order above); 27931 lists per context.
 fn rule_space() {
     use bp7::canonical::CanonicalBlockBuilder;
-    use bp7::{Bundle, CreationTimestamp, EndpointID};
-    use std::convert::TryFrom;
     let opt = |o: u32| -> CanonicalBlock {
         let (kind, num, status) = (o / 6, (o % 6) / 2 + 1, o % 2);
         let (ty, data) = match kind {
